@@ -56,6 +56,10 @@ ASSUMPTIONS = [
     "may raise anything outside the family, not every rank may return",
     "SimMPI reports a rank that waits in a collective a peer will never enter "
     "as blocked-forever instead of hanging",
+    "process-actor groups in which some interpreter runs with python -O (the "
+    "diagnostics pytato keeps under `if __debug__:` are compiled away there) "
+    "are held to the safety half only: no partition for an ill-formed "
+    "program, no valid program rejected, no hang",
 ]
 
 EXPECTED_PROBES = ()
@@ -261,16 +265,29 @@ def _proc_case(ws, recipe, faults, rng):
     return evaluate_status(model, status, outcome), model, status
 
 
+def _safety_only(v):
+    """with python -O on some rank, the diagnostics pytato keeps under `if
+    __debug__:` / assert are compiled away by the user's own choice: what is
+    still demanded is the safety half of the property (no partition for an
+    ill-formed program, no rejection of a valid one, no hang)"""
+    return [x for x in v
+            if x["class"] in ("ill-formed-program-partitioned", "deadlock",
+                              "step-limit", "livelock")
+            or x["class"].startswith("valid-program-")]
+
+
 def run_proc_group(task):
     from simkit import fleet
     seed, (_kind, group), nprogs, nfaults = task
     acc = e1.Accum()
     t0 = time.monotonic()
     rng = random.Random(f"{seed}:{PROP}:proc:{group}")
-    cfgs = fleet.draw_configs(rng, 4)
-    ws = [fleet.Worker(c["hashseed"], c["prelude"], f"p{group}.{i}")
+    cfgs = fleet.draw_configs(rng, 4, optimize_all=(group % 3 == 1))
+    ws = [fleet.Worker.from_config(c, f"p{group}.{i}")
           for i, c in enumerate(cfgs)]
     acc.extra["process_actor_interpreters"] += len(ws)
+    if cfgs[0].get("optimize"):
+        acc.extra["process_actor_groups_running_python_-O"] += 1
     try:
         for i in range(nprogs):
             prng = random.Random(f"{seed}:{PROP}:proc:{group}:{i}")
@@ -283,6 +300,9 @@ def run_proc_group(task):
             for fi, (rc, faults) in enumerate(picks):
                 v, model, status = _proc_case(
                     ws, rc, faults, random.Random(f"{seed}:{group}:{i}:{fi}"))
+                if any(c.get("optimize") for c in cfgs):
+                    v = _safety_only(v)
+                    acc.extra["process_actor_runs_with_-O_interpreters"] += 1
                 acc.runs += 1
                 acc.extra["process_actor_runs"] += 1
                 key = hashlib.sha256(("proc" + e1.recipe_digest(rc)
@@ -314,7 +334,7 @@ def minimise_process(v, target, budget_s=60.0):
 
 def replay_process(doc):
     from simkit import fleet
-    ws = [fleet.Worker(c["hashseed"], c["prelude"], f"rp{i}")
+    ws = [fleet.Worker.from_config(c, f"rp{i}")
           for i, c in enumerate(doc["configs"])]
     try:
         v, _m, _s = _proc_case(ws, doc["recipe"], doc.get("faults", []),
@@ -322,6 +342,8 @@ def replay_process(doc):
     finally:
         for w in ws:
             w.close()
+    if any(c.get("optimize") for c in doc["configs"]):
+        v = _safety_only(v)
     return v
 
 # }}}
